@@ -57,19 +57,34 @@ Proof.
   destruct (s_apply a k c log) as [a' lg]. now apply IH.
 Qed.
 
+Lemma inv_fstore a k f log : inv a -> inv (fst (fst (s_fstore a k f log))).
+Proof.
+  intro H. destruct f; cbn; auto using inv_set_name, inv_destroy.
+Qed.
+
+Lemma inv_ffanout grp : forall a f log, inv a -> inv (fst (fst (s_ffanout a grp f log))).
+Proof.
+  induction grp as [|k r IH]; intros a f log H; cbn [s_ffanout]; [exact H|].
+  destruct (alive_in (sobjs a) k); [|now apply IH].
+  pose proof (inv_fstore a k f log H) as H'.
+  destruct (s_fstore a k f log) as [[a' lg] e]. destruct e; [exact H'|now apply IH].
+Qed.
+
 Lemma inv_step a o : inv a -> inv (fst (spec_step a o)).
 Proof.
-  intro H. destruct o as [n|k n|k|t|t|t i|t c|t|j n]; cbn [spec_step].
+  intro H. destruct o as [n|k n|k|t|t|t i|t c|t f|j n]; cbn [spec_step].
   - now apply inv_spawn.
   - destruct (alive_in (sobjs a) k); cbn; [now apply inv_set_name|exact H].
   - destruct (alive_in (sobjs a) k); cbn; [now apply inv_destroy|exact H].
-  - destruct (s_resolve a t) as [[r w] sg]. exact H.
-  - destruct (s_resolve a t) as [[r w] sg]. exact H.
-  - destruct (s_resolve a t) as [[r w] sg]. destruct (q_index r i). exact H.
-  - destruct (s_resolve a t) as [[r w] sg]. destruct r as [|k|l|]; try exact H.
+  - destruct (s_resolve a t) as [r w]. exact H.
+  - destruct (s_resolve a t) as [r w]. exact H.
+  - destruct (s_resolve a t) as [r w]. destruct (q_index r i). exact H.
+  - destruct (s_resolve a t) as [r w]. destruct r as [|k|l]; try exact H.
     + pose proof (inv_apply a k c [] H) as H'. destruct (s_apply a k c []). exact H'.
     + pose proof (inv_fanout l a c [] H) as H'. destruct (s_fanout a l c []). exact H'.
-  - destruct (s_resolve a t) as [[r w] sg]. destruct r; exact H.
+  - destruct (s_resolve a t) as [r w]. destruct r as [|k|l]; try exact H.
+    + pose proof (inv_fstore a k f [] H) as H'. destruct (s_fstore a k f []) as [[a' lg] e]. exact H'.
+    + pose proof (inv_ffanout l a f [] H) as H'. destruct (s_ffanout a l f []) as [[a' lg] e]. exact H'.
   - destruct (s_eval_name a n). exact H.
 Qed.
 
@@ -174,3 +189,99 @@ Proof.
     + now apply Hstay.
   - destruct (alive_in (sobjs a) x); now apply IH.
 Qed.
+
+(* ---- field assignments *)
+Lemma fstore_log a k f log :
+  snd (fst (s_fstore a k f log)) = log \/ snd (fst (s_fstore a k f log)) = log ++ [k].
+Proof. destruct f; cbn; tauto. Qed.
+
+(* receivers of a field assignment are members of the group, each at most once *)
+Lemma ffanout_receivers grp : forall a f log,
+  exists l', snd (fst (s_ffanout a grp f log)) = log ++ l' /\
+             (forall x, In x l' -> In x grp) /\ (NoDup grp -> NoDup l').
+Proof.
+  induction grp as [|k r IH]; intros a f log; cbn [s_ffanout].
+  - exists []. rewrite app_nil_r. repeat split; [tauto|constructor].
+  - destruct (alive_in (sobjs a) k).
+    + pose proof (fstore_log a k f log) as Hl.
+      destruct (s_fstore a k f log) as [[a' lg] e]. cbn [fst snd] in Hl.
+      destruct e.
+      * cbn [fst snd]. destruct Hl as [Hl|Hl]; subst lg.
+        -- exists []. rewrite app_nil_r. split; [reflexivity|split; [intros x []|constructor]].
+        -- exists [k]. split; [reflexivity|split; [intros x [Hx|[]]; now left|]].
+           intros _. constructor; [intros []|constructor].
+      * destruct (IH a' f lg) as [l' [E [Hin Hnd]]].
+        destruct Hl as [Hl|Hl]; subst lg.
+        -- exists l'. split; [exact E|]. split; [intros x Hx; right; now apply Hin|].
+           intro H. inversion H; subst. now apply Hnd.
+        -- exists (k :: l'). split; [rewrite E, <- app_assoc; reflexivity|].
+           split; [intros x [Hx|Hx]; [now left|right; now apply Hin]|].
+           intro H. inversion H as [|x y Hnin Hnd']; subst. constructor; [|now apply Hnd].
+           intro Hk. apply Hnin. now apply Hin.
+    + destruct (IH a f log) as [l' [E [Hin Hnd]]]. exists l'. split; [exact E|].
+      split; [intros x Hx; right; now apply Hin|]. intro H. inversion H; subst. now apply Hnd.
+Qed.
+
+(* a plain field reaches every member of the group exactly once, in naming order, without error *)
+Lemma ffanout_tag_all grp : forall a log,
+  (forall k, In k grp -> alive_in (sobjs a) k = true) ->
+  s_ffanout a grp FTag log = (a, log ++ grp, false).
+Proof.
+  induction grp as [|k r IH]; intros a log Hal; cbn [s_ffanout s_fstore].
+  - now rewrite app_nil_r.
+  - rewrite (Hal k (or_introl eq_refl)). rewrite IH.
+    + now rewrite <- app_assoc.
+    + intros x Hx. apply Hal. now right.
+Qed.
+
+Lemma tag_reaches_the_group a n :
+  s_ffanout a (lookup n (sobjs a)) FTag [] = (a, lookup n (sobjs a), false).
+Proof.
+  rewrite ffanout_tag_all; [reflexivity|].
+  intros k Hin. apply lookup_in_alive in Hin. unfold alive_in.
+  now destruct (find_name (sobjs a) k).
+Qed.
+
+(* a targetname assignment through a group moves every member *)
+Lemma find_name_set_name a y x k :
+  alive_in (sobjs a) y = true ->
+  find_name (sobjs (s_set_name a y x)) k = if k =? y then Some (norm x) else find_name (sobjs a) k.
+Proof.
+  intro Hal. unfold s_set_name. rewrite Hal. cbn [sobjs s_with]. rewrite find_name_app.
+  destruct (N.eqb_spec k y) as [E|E].
+  - subst k. now rewrite find_name_without_same, N.eqb_refl.
+  - rewrite find_name_without_other by exact E.
+    destruct (find_name (sobjs a) k); [reflexivity|].
+    destruct (N.eqb_spec y k); [congruence|reflexivity].
+Qed.
+
+Lemma ffanout_name_moves grp : forall a x log k,
+  (In k grp /\ alive_in (sobjs a) k = true) \/ find_name (sobjs a) k = Some (norm x) ->
+  find_name (sobjs (fst (fst (s_ffanout a grp (FName x) log)))) k = Some (norm x) /\
+  snd (s_ffanout a grp (FName x) log) = false.
+Proof.
+  induction grp as [|y r IH]; intros a x log k Hk; cbn [s_ffanout s_fstore].
+  - split; [|reflexivity]. destruct Hk as [[[] _]|Hk]. exact Hk.
+  - destruct (alive_in (sobjs a) y) eqn:Hy.
+    + apply IH. rewrite (find_name_set_name a y x k Hy).
+      destruct (N.eqb_spec k y) as [E|E]; [now right|].
+      destruct Hk as [[[Hk|Hk] Hal]|Hk]; [congruence| |now right].
+      left. split; [exact Hk|]. unfold alive_in in *. rewrite (find_name_set_name a y x k Hy).
+      destruct (N.eqb_spec k y); [contradiction|exact Hal].
+    + apply IH. destruct Hk as [[[Hk|Hk] Hal]|Hk]; [subst; congruence|left; tauto|now right].
+Qed.
+
+Lemma name_through_the_group_moves_everyone a n x k :
+  In k (lookup n (sobjs a)) ->
+  find_name (sobjs (fst (fst (s_ffanout a (lookup n (sobjs a)) (FName x) [])))) k = Some (norm x) /\
+  snd (s_ffanout a (lookup n (sobjs a)) (FName x) []) = false.
+Proof.
+  intro Hin. apply ffanout_name_moves. left. split; [exact Hin|].
+  apply lookup_in_alive in Hin. unfold alive_in. now destruct (find_name (sobjs a) k).
+Qed.
+
+(* a stored group keeps its size and its members: element i is the i-th object or NULL *)
+Lemma stored_group_is_stable o l :
+  look o (VArr l) = RGrp (map (fun k => if alive_in o k then k else 0) l) /\
+  q_size (look o (VArr l)) = OInt (N.of_nat (length l)).
+Proof. cbn. now rewrite map_length. Qed.
